@@ -1000,8 +1000,8 @@ def decode_case(rng, conventional=True, twin=False):
     t = leaves[0]
     for x in leaves[1:]:
         t = imp(x, t) if rng.random() < 0.5 else imp(t, x)
-    if isinstance(t, str):
-        t = imp(t, t)
+    if isinstance(t, str) and rng.random() < 0.5:
+        t = imp(t, t)            # (otherwise the whole statement body is a bare variable: its hypothesis is mandatory all the same)
     mand = [flab[v] for v in order if v in tv]
     # optionally a second theorem over OTHER variables that carries byte-for-byte the same compressed proof text: its numbers 1..m
     # denote ITS mandatory hypotheses
